@@ -21,6 +21,8 @@ def _loop(body, pre=""):
 
 def fam_branches():
     out = []
+    # named constants with a sign in folded arithmetic (remainder, division, comparison) next to the same values at run time
+    out.append(("br_negative_constants_folded", _loop("ka = -7\nkb = 3\nva = d0.Setting\nd1.Setting = ka % kb + va\nd2.Setting = (ka % kb) * 10 + (7 % kb)\nif ka % kb > 1:\n    d3.Setting = ka / 2 + va % kb\n")))
     for k, op in enumerate(CMPS):
         c = (k % 3)
         out.append((f"br_if_{k}", _loop(f"va = d0.Setting\nif va {op} {c}:\n    d1.Setting = va + 1\nd1.On = 1")))
@@ -71,6 +73,13 @@ def fam_functions():
     out = []
     out.append(("fn_ret2", HEADER + "def fa(xa, xb):\n    if xa > xb:\n        return xa - xb\n    return xb + xa\nwhile True:\n    d0.Setting = fa(d0.Setting, d1.Setting)\n    yield_()\n"))
     out.append(("fn_noarg", HEADER + "def fa():\n    d1.Setting = d0.Setting + 1\nwhile True:\n    fa()\n    yield_()\n"))
+    # a parameter that the function reassigns: the caller's variable passed for it must keep its value (also when inlined)
+    out.append(("fn_param_reassigned_once", HEADER + "def countdown(xn):\n    xn -= 1\n    d1.Setting = xn\n    return xn * 2\nwhile True:\n    va = d0.Setting\n    vb = countdown(va)\n    d2.Setting = va + vb\n    yield_()\n"))
+    out.append(("fn_param_changed_called_twice", HEADER + "def countdown(xn):\n    xn = xn - 1\n    d1.Setting = xn\n    return xn * 2\nwhile True:\n    va = d0.Setting\n    vb = countdown(va)\n    vc = countdown(vb)\n    d2.Setting = va + vb + vc\n    yield_()\n"))
+    # a helper called once (inlined) whose name ends with the name of the function it is inlined into; that function is called
+    # twice and makes a real call, so it saves ra; the helper has an early return (its end label travels into the caller's body)
+    out.append(("fn_suffix_named_helper_inlined", HEADER + "def bump(xa):\n    d1.Setting = xa\n    return xa + 1\ndef pre_step(xa):\n    if xa > 5:\n        return xa - 5\n    return xa + 2\n"
+                "def step(xa):\n    ta = pre_step(xa)\n    return bump(ta)\nwhile True:\n    d2.Setting = step(d0.Setting) + step(9)\n    d3.Setting = bump(10)\n    yield_()\n"))
     out.append(("fn_chain", HEADER + "def fa(xa):\n    return xa + 1\ndef fb(xa):\n    return fa(xa) * 2\ndef fc(xa):\n    return fb(xa) - fa(xa)\nwhile True:\n    d1.Setting = fc(d0.Setting)\n    yield_()\n"))
     out.append(("fn_twice", HEADER + "def fa(xa, xb):\n    return xa * 2 + xb\nwhile True:\n    va = fa(d0.Setting, 1)\n    vb = fa(va, d1.Setting)\n    d2.Setting = va + vb\n    yield_()\n"))
     out.append(("fn_live_across", HEADER + "def fa(xa):\n    tmp = xa * 3\n    return tmp + 1\nwhile True:\n    va = d0.Setting\n    vb = d1.Setting\n    vc = fa(va)\n    d2.Setting = va + vb + vc\n    yield_()\n"))
@@ -110,6 +119,10 @@ def fam_pressure():
         reads = "\n".join(f"    v{i} = xa + {i}" for i in range(k))
         tot = " + ".join(f"v{i}" for i in range(k))
         out.append((f"pr_call_{k}", HEADER + f"def fa(xa):\n{reads}\n    return {tot}\nwhile True:\n    wa = d0.Setting\n    wb = wa * 2\n    wc = fa(wa)\n    d1.Setting = wa + wb + wc\n    yield_()\n"))
+    # a function with a `for` loop (counter and loop variable share a register: a hole in the function's block of registers)
+    # that keeps a temporary alive across a call of a second, not inlined function
+    out.append(("pr_temp_across_call_in_for", HEADER + "def fz(xa):\n    ta = xa * 2\n    return ta + 1\ndef gz(xn):\n    total = 0\n    for ia in range(xn):\n        d1.Setting = (ia + 1) * (total + 2)\n"
+                "        total += ia * 3 + fz(ia)\n    return total + fz(xn)\nwhile True:\n    d2.Setting = gz(3)\n    d3.Setting = gz(d0.Setting) + fz(1)\n    yield_()\n"))
     out.append(("pr_expr", _loop("va = d0.Setting\nvb = d1.Setting\nd2.Setting = (va + 1) * (vb + 2) - (va - vb) * (va + vb) + (va * 3 - vb * 4)")))
     out.append(("pr_loopcarried", _loop("va = d0.Setting\nvb = 1\nvc = 2\nfor idx in range(3):\n    vt = va + vb\n    vb = vc + idx\n    vc = vt\nd1.Setting = va + vb + vc")))
     return out
@@ -130,6 +143,10 @@ def fam_access():
     out.append(("ac_refid_device", HEADER + "lamp = WallLight(ref_id=d2.Setting)\nwhile True:\n    va = d0.Setting * 2 + 1\n    vb = va * va + 3\n    lamp.On = vb > va\n    d1.Setting = vb - va\n    yield_()\n"))
     out.append(("ac_refid_stack", HEADER + "sid = Autolathes.Minimum.ReferenceId\nstz = Stack(ref_id=sid)\nwhile True:\n    va = d0.Setting * 2 + 1\n    vb = va * va + 3\n    stz[0] = vb + va\n    d1.Setting = stz[1] + vb\n    yield_()\n"))
     out.append(("ac_refid_in_function", HEADER + "def feed(xa):\n    rid = Autolathes.Minimum.ReferenceId\n    stz = Stack(ref_id=rid)\n    va = xa * 2 + 1\n    vb = va * va + 3\n    stz[0] = vb + va\n    return vb\nwhile True:\n    d1.Setting = feed(d0.Setting) + feed(1)\n    yield_()\n"))
+    # a named batch object whose name is held in a register (read from a device / passed as an argument), logic type first and method first
+    out.append(("ac_batch_name_in_register", HEADER + "while True:\n    which = d0.Setting\n    doors = GlassDoors[which]\n    d1.Setting = doors.Open.Maximum\n    d2.Setting = doors.Maximum.Open\n"
+                "    d3.Setting = GlassDoors[which].Lock.Minimum\n    doors.Open = 1\n    yield_()\n"))
+    out.append(("ac_batch_name_as_argument", HEADER + "def openness(xw):\n    return GlassDoors[xw].Open.Maximum + GlassDoors[xw].Sum.Lock\nwhile True:\n    d1.Setting = openness(d0.Setting) + openness(5)\n    yield_()\n"))
     out.append(("ac_sleep", HEADER + "while True:\n    d1.Setting = d0.Setting\n    sleep(2)\n"))
     return out
 
